@@ -37,19 +37,19 @@ PROPS = {
     "C05": dict(fam=["core1", "tandem", "prio", "preempt", "renege", "cls", "sched", "schedpre", "ccw"],
                 mc=["core1", "tandem", "prio", "preempt", "renege", "sched", "schedpre"], inv=["Inv_C05"], step=["Step_C05"]),
     "C08": dict(fam=["prio", "preempt", "cls", "renege", "ccw", "sched", "slot"], mc=["prio", "preempt", "cls", "ccw", "slot"], inv=[], step=["Step_C08"]),
-    "C09": dict(fam=["route", "cls", "tandem", "prio"], mc=["route", "cls", "tandem"], inv=["Inv_C09"], step=["Step_C09"]),
+    "C09": dict(fam=["route", "cls", "jsqsched", "tandem", "prio"], mc=["route", "cls", "tandem"], inv=["Inv_C09"], step=["Step_C09"]),
     "C11": dict(fam=["preempt"], mc=["preempt"], inv=["Inv_C11"], step=["Step_C11"]),
     "C13": dict(fam=["renege", "core1"], mc=["renege"], inv=["Inv_C13"], step=["Step_C13"]),
     "C16": dict(fam=["pause"], mc=["pause"], inv=["Inv_C04", "Inv_C01"], step=["Step_C16"]),
     "C17": dict(fam=["trk"], mc=["trk", "dead"], inv=["Inv_C17"], step=["Step_C17"]),
-    "C18": dict(fam=["dead"], mc=["dead"], inv=["Inv_C18"], step=["Step_C18"]),
+    "C18": dict(fam=["dead", "dead3"], mc=["dead"], inv=["Inv_C18"], step=["Step_C18"]),
     "C19": dict(fam=["ps", "psfifo"], mc=["ps"], inv=["Inv_C19"], step=["Step_C19"]),
     "C20": dict(fam=["exact"], mc=["exact"], inv=[], step=["Step_C20"]),
     "C14": dict(fam=["stopcount", "core1", "tandem", "prio", "cls", "renege", "route", "preempt"],
                 mc=["core1", "stopcount"], inv=[], step=["Step_C14"]),
 }
 
-ALLFAM = ["mix", "mix", "mix", "pause", "date0", "jockey", "slotpre", "renegesched", "schedblock", "infblock", "ppsched", "ps", "core1", "tandem", "prio", "preempt", "cls", "clsren", "renege", "route", "sched", "schedpre", "schedblock",
+ALLFAM = ["mix", "mix", "mix", "pause", "date0", "jsqsched", "dead3", "jockey", "slotpre", "renegesched", "schedblock", "infblock", "ppsched", "ps", "core1", "tandem", "prio", "preempt", "cls", "clsren", "renege", "route", "sched", "schedpre", "schedblock",
           "slot", "ccw", "trk", "reroute", "stopcount"]
 
 # vacuity gates (DESIGN section 5): witness tags that the validated traces of a check must contain at least once,
